@@ -186,8 +186,8 @@ Definition compute (fuel : nat) (c : csm S) (p : vec S) (a e : S) (o : opts) : o
          || (match o_t0 o with Some t0 => negb (vdim t0 =? n) | None => false end)
          || (match o_result_dim o with Some d => negb (d =? n) | None => false end)
     then Failed E_DIM
-    else if ltb S a (zero S) || ltb S (one S) a then Failed E_ALPHA
-    else if leb S e (zero S) then Failed E_EPS
+    else if negb (leb S (zero S) a && leb S a (one S)) then Failed E_ALPHA    (* !(a >= 0 && a <= 1): also NaN *)
+    else if negb (ltb S (zero S) e) then Failed E_EPS                        (* !(e > 0): also NaN *)
     else
       let num_leaders := if (o_num_leaders o =? 0)%Z then Z.of_nat n else o_num_leaders o in
       let t0 := match o_t0 o with Some t0 => t0 | None => p end in
